@@ -144,6 +144,10 @@ def check_main(pid, tier):
             new_mechs.setdefault(v["mech"], []).append(v)
 
     rdir = os.path.join(VERIF, "replays", pid)
+    if os.path.isdir(rdir):
+        for fn in os.listdir(rdir):          # replay files of earlier runs would only confuse: keep the current run's
+            if fn.endswith(".json"):
+                os.unlink(os.path.join(rdir, fn))
     lines = []
     for mech, vs in new_mechs.items():
         os.makedirs(rdir, exist_ok=True)
